@@ -181,6 +181,9 @@ def poly_fails(case):
             return 'poly-%s-mutates: extract_%s modified the coefficients of the polynomial it reads' % (nm, nm)
         if not np.array_equal(first, second, equal_nan=True):
             return 'poly-%s-repeat: a second extract_%s of the same result differs from the first' % (nm, nm)
+        r_ = ext(y_)
+        if isinstance(r_, np.ndarray) and r_.size and np.shares_memory(r_, y_.data):
+            return 'poly-%s-window: extract_%s returns a window into the polynomial it reads (rescaling the result rewrites the polynomial)' % (nm, nm)
     if not close(np.ravel(J), g, 1e-10):
         return 'poly-jacobian: extract_jacobian differs from the exact gradient'
     if not close(np.ravel(Jv), np.array([g @ v]), 1e-10):
@@ -350,6 +353,9 @@ def arrpoly_fails(case):
             return 'arrpoly-%s-mutates: extract_%s modified the coefficients of the array-valued polynomial it reads' % (nm, nm)
         if not np.array_equal(first, second, equal_nan=True):
             return 'arrpoly-%s-repeat: a second extract_%s of the same array-valued result differs from the first' % (nm, nm)
+        r_ = ext(y_)
+        if isinstance(r_, np.ndarray) and r_.size and np.shares_memory(r_, y_.data):
+            return 'arrpoly-%s-window: extract_%s returns a window into the array-valued polynomial it reads' % (nm, nm)
     want = J @ v
     if np.shape(Jv) != want.shape or not close(Jv, want, 1e-10):
         return 'arrpoly-jac_vec: extract_jac_vec of an output of shape %s has shape %s / differs from the exact J v' % (oshape, np.shape(Jv))
